@@ -217,7 +217,24 @@ _R11_TEXT = {
     "C19": " Also (CURAX1, HOMDIV1): every artist-creating call of a draw_* method goes through self.ax, never pyplot's current axes.",
     "C20": " Also (U1 on public flags).",
 }
+_R11B_TEXT = {
+    "C01": " (LK4, PUTMASK1): item assignment into a composite promotes the stored array first; the values of np.putmask are not computed on the masked selection.",
+    "C04": " Also (PUTMASK1, SH5 factory rows): np.putmask values are full-shape; get_origin / get_base_tangent are interpreted with the composite shape passed as their argument.",
+    "C05": " (MD1): the constructor stores a copy of its relator list.",
+    "C06": " Also (MEMO1, V2r): nothing read from the memo of _automaton_accepted is the target of out= or an in-place operation; rename_generators(inplace=True) rebuilds all three views.",
+    "C08": " Also (ITER1): no parameter of coxeter.py is consumed by two passes without being materialised.",
+    "C09": " (ELIST1, RETARGET1, N2): the redundancy test of add_edges never tests a label list for membership; a re-targeted label leaves its old edge in every view; no truthiness test on a single vertex / label.",
+    "C10": " (N2).",
+    "C11": " (LK4, AX1, HD1): np.concatenate of leading-axis slices names its axis; project_to_hyperboloid is homogeneous of degree 0 in the base point.",
+    "C12": " (CAST1, LK4, RAW1): integer dtypes are recognised by kind, not by castability; the constructors C12 names convert their array-like argument before using ndarray attributes on it.",
+    "C13": " (SH5 factory rows): get_base_tangent(dimension, shape) gives a composite of that shape.",
+    "C17": " (SHARED1): entries of a module-level container are returned as copies or never written by callers.",
+    "C18": " (HOM1 client row): utils.projection takes no branch on an absolute threshold of a scale-dependent square norm.",
+    "C20": " (EMATH1, PUTMASK1): an np.emath result is not combined in place into an unpromoted array.",
+}
 for _k, _v in _R11_TEXT.items():
+    EXTRA_TEXT[_k] = EXTRA_TEXT.get(_k, '') + _v
+for _k, _v in _R11B_TEXT.items():
     EXTRA_TEXT[_k] = EXTRA_TEXT.get(_k, '') + _v
 
 
